@@ -182,12 +182,14 @@ fn build_rhs(b: &Key, g: u16, spec: &Rhs, captured: &Val, refs: &Refs, stash: &S
             n
         }
         Rhs::ST(x) => {
-            if g == 1 {
-                let n = captured_map(Key::inner(b, g, 0), captured, &refs[x], stash);
-                *first.borrow_mut() = Some(n.clone());
-                n
-            } else {
-                first.borrow().clone().unwrap()
+            let have = first.borrow().clone();
+            match have {
+                None => {
+                    let n = captured_map(Key::inner(b, g, 0), captured, &refs[x], stash);
+                    *first.borrow_mut() = Some(n.clone());
+                    n
+                }
+                Some(n) => n,
             }
         }
     }
@@ -207,7 +209,8 @@ pub struct GraphWorld {
     obs_hash: u64,
     counters: Counters,
     explain: String,
-    /// what each handle returned at the last probe (C07)
+    /// what each observer slot returned at the probe right after the last stabilise (C07)
+    last_read: Vec<Option<Result<Val, ObsErr>>>,
     pub machinery: Vec<String>,
 }
 
@@ -531,7 +534,8 @@ impl GraphWorld {
     }
 
     /// C02/C03/C05/C06/C09 on the event log of one stabilise
-    fn check_round(&mut self, log: &[Ev], out: &RoundOut, recomputed_delta: usize, vs: &mut Vec<Violation>) {
+    fn check_round(&mut self, log: &[Ev], out: &RoundOut, recomputed_delta: usize, vs: &mut Vec<Violation>) -> Vec<(Key, Vec<Val>)> {
+        let mut extra_runs: Vec<(Key, Vec<Val>)> = vec![];
         let armed = |p: &str| self.cfg.is_armed(p);
         let pure = self.prog.is_pure_class();
         let m = &self.model;
@@ -721,11 +725,32 @@ impl GraphWorld {
                     vs.push(v("C06", "C06.missed", kind_of(k), format!("{k:?} ({}) was not re-invoked although an input produced a result its cutoff did not suppress (expected arguments {args:?})", kind_of(k))));
                 }
             }
-            for k in runs.keys().chain(fold_steps.keys()) {
-                if !out.cone_end.contains(k) {
+            // spurious re-invocations, in log order (so that consequences follow causes)
+            let mut explained: BTreeSet<Key> = BTreeSet::new();
+            for ev in log.iter() {
+                let (k, args) = match ev {
+                    Ev::Run { key, args } => (key, args.clone()),
+                    Ev::FoldDone { key, args } => (key, args.clone()),
+                    _ => continue,
+                };
+                if !out.cone_end.contains(k) || exp_runs.contains_key(k) {
                     continue;
                 }
-                if !exp_runs.contains_key(k) {
+                // Known finding (DESIGN §10): a map_ref that was outside every cone while its
+                // input changed is treated as changed when it is needed again, even if the
+                // projection is the same; its dependants then re-run on unchanged arguments.
+                let n = &m.nodes[k];
+                let by_known = n.kind.inputs().iter().any(|i| out.mapref_reobserved_unchanged.contains(i) || explained.contains(i));
+                if by_known {
+                    vs.push(v("C06", "C06.spurious", "after-mapref-reobserved", format!("{k:?} ({}) was re-invoked on unchanged arguments {args:?}: its map_ref input was not needed while the map_ref's own input changed, and counts as changed when needed again although the projection is equal", kind_of(k))));
+                    // does the re-run itself propagate? only if its cutoff lets an equal value through
+                    if let Some(old) = &n.val {
+                        if !n.cut.suppresses(old, old) {
+                            explained.insert(k.clone());
+                        }
+                    }
+                    extra_runs.push((k.clone(), args));
+                } else {
                     vs.push(v("C06", "C06.spurious", kind_of(k), format!("{k:?} ({}) was re-invoked although none of its inputs changed since it last ran", kind_of(k))));
                 }
             }
@@ -790,6 +815,7 @@ impl GraphWorld {
                 }
             }
         }
+        extra_runs
     }
 
     fn probe(&mut self, after_stabilise: bool, check: bool, vs: &mut Vec<Violation>) {
@@ -799,11 +825,28 @@ impl GraphWorld {
         for (s, handles) in t.slots.iter().enumerate() {
             let exp = self.model.expected_read(s as u8);
             let o = &self.model.obs[s];
+            while self.last_read.len() <= s {
+                self.last_read.push(None);
+            }
             for h in handles.iter() {
                 let got = h.try_get_value().map_err(|e| ObsErr::from_real(&e));
                 self.obs_hash = hash64(&(self.obs_hash, s, &got));
+                let held = self.last_read[s].clone();
+                if after_stabilise {
+                    self.last_read[s] = Some(got.clone());
+                }
                 if !check {
                     continue;
+                }
+                // C07: between two stabilise calls an in-use observer keeps returning what it
+                // returned at the end of the last one
+                if !after_stabilise && o.state == OState::InUse && self.cfg.is_armed("C07") {
+                    if let Some(held) = &held {
+                        if *held != got {
+                            vs.push(v("C07", "C07.moved", "", format!("observer slot {s} on {:?} returned {held:?} at the end of the last stabilise and now returns {got:?} although no stabilise ran in between", o.key)));
+                            continue;
+                        }
+                    }
                 }
                 // from-scratch value for C01
                 if after_stabilise && o.state == OState::InUse {
@@ -833,12 +876,13 @@ impl GraphWorld {
                 }
                 if got != exp {
                     match (&got, &exp) {
-                        (Ok(a), Ok(b)) if a != b => {
-                            if self.cfg.is_armed("C07") {
-                                vs.push(v("C07", "C07.moved", "", format!("observer slot {s} returns {a:?} but held {b:?} at the end of the last stabilise (after_stabilise={after_stabilise})")));
-                            }
-                        }
+                        // value disagreements between rounds are consequences of an earlier
+                        // C01/C06 disagreement, already reported there
+                        (Ok(_), Ok(_)) => {}
                         _ => {
+                            if exp == Err(ObsErr::NeverStabilised) && self.cfg.is_armed("C07") {
+                                vs.push(v("C07", "C07.new_observer", "", format!("observer slot {s} has not been through a stabilise yet but returned {got:?} instead of Err(NeverStabilised)")));
+                            }
                             if self.cfg.is_armed("C10") {
                                 vs.push(v("C10", "C10.read", format!("{exp:?}").split('(').next().unwrap_or(""), format!("observer slot {s} ({:?}, {} handles) returned {got:?}, lifecycle model says {exp:?}", o.state, o.handles)));
                             }
@@ -871,6 +915,7 @@ impl World for GraphWorld {
             obs_hash: 0,
             counters: Counters::new(),
             explain: String::new(),
+            last_read: vec![],
             machinery: vec![],
         };
         for i in 0..prog.precreated {
@@ -1019,8 +1064,25 @@ impl World for GraphWorld {
             vs.push(v("C10", "C10.api_result", format!("{model_api:?}"), format!("{a:?} returned {real_api:?}, lifecycle model says {model_api:?}")));
         }
         if let Some(out) = &round {
+            // the engine's conservative treatment of re-observed map_refs (known finding) is
+            // followed whether or not this step is judged, so that replayed prefixes agree
+            let mut scratch = vec![];
+            let mut armed_c06 = self.cfg.clone();
+            if !armed_c06.armed.is_empty() && !armed_c06.armed.contains(&"C06") {
+                armed_c06.armed.push("C06");
+            }
+            let saved = std::mem::replace(&mut self.cfg, armed_c06);
+            let extra = if check || !out.mapref_reobserved_unchanged.is_empty() {
+                self.check_round(&log, out, after.recomputed - before.recomputed, &mut scratch)
+            } else {
+                vec![]
+            };
+            self.cfg = saved;
             if check {
-                self.check_round(&log, out, after.recomputed - before.recomputed, &mut vs);
+                vs.extend(scratch.into_iter().filter(|x| self.cfg.is_armed(x.property)));
+            }
+            for (k, args) in extra.iter() {
+                self.model.adopt_extra_run(out.round, k, args);
             }
             // bookkeeping of the subscription model follows the specification
             for (s, u) in out.notes.iter() {
